@@ -989,6 +989,7 @@ func (r *runner) violate(key string, extra map[string]any, format string, a ...a
 
 func (r *runner) newFelix() {
 	r.tbl = newTable(r.sc, r.k, &r.now)
+	r.savedEpoch = -1 // a new instance has read nothing yet
 	r.count("instances", 1)
 	var cs []dchain
 	for _, n := range r.sc.names {
@@ -1372,6 +1373,7 @@ func runScenario(c *harness.Case, sc *scenario, plan *faultPlan, seenKeys map[st
 		if fault != "" {
 			r.callFaults++
 			r.count("faults_save", 1)
+			r.savedEpoch = -1
 			return
 		}
 		r.savedEpoch = r.oobEpoch
@@ -1518,15 +1520,35 @@ func main() {
 	harness.Main(harness.Check{
 		ID:    "C15",
 		Level: "fault_enumeration",
-		Rule:  "TODO",
+		Rule: "case i%4!=3: iptables.Table on fakeipt (PRNG: table filter/mangle/raw/nat, IPv4/6, legacy|nft backend, insert|append mode, refresh 0/10s/90s); " +
+			"starting table = foreign chains/rules with Felix look-alike names, stale chains under historic prefixes, old-hash and un-hashed hook rules (also inside foreign chains), " +
+			"current content with correct hashes but damaged/misplaced/duplicated; history of 6-27 ops (UpdateChains, RemoveChains, InsertOrAppendRules, AppendRules, Apply, virtual time, " +
+			"out-of-band edits incl. between save and restore and whole-table clobbering, restarts, checkpoints). case i%4==3: nftables.NewTable on knftables.Fake with the same vocabulary. " +
+			"Each scenario runs fault-free, then once per fault point of that run (every save / every restore start, COMMIT and end; every ListAll, ListRules, Run), then bursts (2-13) and random multi-faults. " +
+			"non-trivial = >=5 fault runs hit and convergence was judged at least once; distinct by scenario",
+		Assumptions: []string{
+			"verif/internal/fakeipt models iptables-save/-restore --noflush: canonical save spelling (long options short, /32 added, save_string quoting), per-COMMIT-block atomicity, refusal rules for missing chains/targets, bad rule numbers, -D by spec without match, -X of non-empty/referenced chains, loops; nft backend: a chain referenced at block start cannot be deleted in that block",
+			"not modelled by fakeipt: match/target option validation, counters, the xtables lock and truly concurrent writers, the iptables-nft -R index bug, policies changed via restore",
+			"nftables half uses sigs.k8s.io/knftables.Fake (transactional; does not refuse deleting a referenced chain; rule text is opaque) wrapped for fault injection; other nft tables are planted directly into the fake's table map",
+			"ownership reference: chains starting with cali/felix- and, elsewhere, rules with a comment starting cali: or jumping (-j) to such a chain are Felix's; foreign rules never use those patterns",
+			"expected rule text is produced with the repo's match/action/renderer builders (rendering itself is property C08) and normalised by the fake's save spelling; hash comments are stripped before comparing",
+			"the repo's felix/iptables/testutils mock was not used: it depends on ginkgo/gomega assertions, applies restore input non-atomically and has no refusal rules",
+		},
 		Cases: func(tier string) int {
 			if tier == "thorough" {
-				return 4000
+				return 6400
 			}
 			return 320
 		},
 		Run:         run,
 		CaseTimeout: 15 * time.Minute,
-		Floors:      map[string]int64{},
+		Floors: map[string]int64{
+			"apply_ok": 2000, "c_checks": 2000, "cmd_save": 1500, "cmd_restore": 1000, "restore_blocks": 1200, "restore_lines": 10000,
+			"faults_save": 150, "faults_restore": 250, "f_checks": 1000, "foreign_objects_checked": 5000, "n_checks": 2500, "checkpoints": 500,
+			"apply_gave_up": 15, "oob_edits": 400, "oob_between_save_and_restore": 60,
+			"nft_cases": 20, "nft_cmd_listall": 400, "nft_cmd_listrules": 350, "nft_cmd_run": 400, "nft_tx_committed": 250,
+			"nft_faults_listall": 20, "nft_faults_listrules": 20, "nft_faults_run": 40,
+			"ipt_cases_legacy_insert": 10, "ipt_cases_legacy_append": 5, "ipt_cases_nft_insert": 10, "ipt_cases_nft_append": 5,
+		},
 	})
 }
